@@ -153,6 +153,25 @@ def judge(chk, fam, module, traces, meta, all_devs, label, parallel, pre=None):
     by_id = {t["id"]: t for t in traces}
     stats = {"traces": len(traces), "steps": sum(len(t["steps"]) for t in traces), "accept": 0, "prop": 0, "drift": 0,
              "failures_by_key": {}}
+    # A false clause the as-code model does not explain may be a deviation of the spec that is not (or no
+    # longer) an open finding, e.g. a repaired defect that came back: re-validate those executions with
+    # every deviation of the spec switched on and name the non-open deviations they exercised.
+    relapse = {}
+    lost = [tid for tid, ps in props.items() if any(not p[2] for p in ps)]
+    if lost and set(all_devs) != set(as_code):
+        back, copies = {}, []
+        for tid in lost:
+            cp = dict(by_id[tid], id=len(copies) + 1, dev=list(all_devs))
+            back[cp["id"]] = tid
+            copies.append(cp)
+        _, _, props2, res2 = validate(module, copies, label + "_attr", parallel)
+        for r in res2:
+            chk.add_tlc(f"{fam} attribution of unexplained failures (all deviations of the spec)", r, count=False)
+        for cid, ps in props2.items():
+            for clause, at, followed, m in ps:
+                extra = [d for i, d in enumerate(all_devs) if isinstance(m, int) and m >> i & 1 and d not in as_code]
+                if followed and extra:
+                    relapse[(back[cid], clause)] = extra
     for tid, (v, pos) in sorted(verdicts.items()):
         mism, mpos, mask = models[tid]
         origin = meta[tid].get("origin")
@@ -178,6 +197,8 @@ def judge(chk, fam, module, traces, meta, all_devs, label, parallel, pre=None):
                 keys = list(as_code)
             elif followed:
                 keys = [f"{fam}_{clause}_in_corrected_design"]
+            elif (tid, clause) in relapse:
+                keys = relapse[(tid, clause)]       # deviation(s) of the spec that are not open findings
             else:
                 keys = [f"{fam}_{clause}_after_" + mism.replace("MODEL:", "").replace(":", "_")]
             for key in keys:
